@@ -1047,11 +1047,33 @@ func (f *frame) loopInvariants(b *ssa.BasicBlock, li *loopInfo, phis []*ssa.Phi)
 // localsAt binds source-level local variable names to the SSA values that hold them at block b
 // (from the DebugRef instructions of blocks dominating b; later definitions win).
 func (f *frame) localsAt(b *ssa.BasicBlock, env *specEnv) {
+	cellNames := map[string]bool{}
+	defer func() {
+		for n := range cellNames {
+			delete(env.vars, n)
+		}
+	}()
 	for _, blk := range f.rpo {
 		if !blk.Dominates(b) {
 			continue
 		}
 		for _, ins := range blk.Instrs {
+			if al, isAl := ins.(*ssa.Alloc); isAl && al.Comment != "" && !f.paramNames()[al.Comment] && token.IsIdentifier(al.Comment) {
+				// a named local that lives in memory (address taken, e.g. captured by a closure): the name denotes
+				// the cell's value in the state the expression is evaluated in -- not the value of some earlier store
+				elT := al.Type().Underlying().(*types.Pointer).Elem().Underlying()
+				_, isArr := elT.(*types.Array)
+				_, isS := elT.(*types.Struct)
+				if t, ok := f.vals[al]; ok && !isArr && !isS {
+					if env.cells == nil {
+						env.cells = map[string]T{}
+					}
+					env.cells[al.Comment] = t
+					delete(env.vars, al.Comment)
+					cellNames[al.Comment] = true
+				}
+				continue
+			}
 			dr, ok := ins.(*ssa.DebugRef)
 			if !ok {
 				continue
@@ -1060,10 +1082,25 @@ func (f *frame) localsAt(b *ssa.BasicBlock, env *specEnv) {
 				// an address-taken local array (var Q [N]T): the name denotes the array; specs index it as Q[k]
 				if al, isAl := dr.X.(*ssa.Alloc); isAl {
 					if id, isId := dr.Expr.(*ast.Ident); isId {
-						if _, isArr := al.Type().Underlying().(*types.Pointer).Elem().Underlying().(*types.Array); isArr {
+						elT := al.Type().Underlying().(*types.Pointer).Elem().Underlying()
+						if _, isArr := elT.(*types.Array); isArr {
 							if t, ok := f.vals[al]; ok {
 								if _, exists := env.vars[id.Name]; !exists {
 									env.vars[id.Name] = t
+								}
+							}
+						} else if _, isS := elT.(*types.Struct); !isS {
+							// an address-taken scalar local (e.g. captured by a closure): the name denotes the cell's
+							// value in the state the expression is evaluated in
+							if t, ok := f.vals[al]; ok && !f.paramNames()[id.Name] {
+								if _, isCell := env.cells[id.Name]; !isCell {
+									if env.cells == nil {
+										env.cells = map[string]T{}
+									}
+									env.cells[id.Name] = t
+									// the cell wins over values the name had at earlier program points
+									delete(env.vars, id.Name)
+									cellNames[id.Name] = true
 								}
 							}
 						}
@@ -1118,6 +1155,9 @@ func (f *frame) evalLoopInv(iv loopInv, cur, old *State) string {
 		}
 	}
 	t, err := env.evalBool(iv.spec)
+	if os.Getenv("GOVC_DEBUG") == "inv" {
+		fmt.Fprintf(os.Stderr, "loopinv %q -> %s (vars has Gamma: %v, cells: %v)\n", iv.spec.Text, t, env.vars["Gamma"], env.cells)
+	}
 	if err != nil {
 		f.e.note("loop invariant eval error: " + err.Error())
 		return "true"
